@@ -200,8 +200,14 @@ fn find_fn(file: &syn::File, path: &str, nth: usize) -> Vec<Found> {
 // spec files
 // ------------------------------------------------------------------------------------------
 #[derive(Default)]
-pub struct Specs { pub sections: BTreeMap<String, String>, pub used: BTreeSet<String> }
+pub struct Specs { pub sections: BTreeMap<String, String>, pub used: BTreeSet<String>, pub exempt: BTreeSet<String> }
 impl Specs {
+    fn load_ref(&mut self, p: &Path) -> Result<(), String> {
+        let before: BTreeSet<String> = self.sections.keys().cloned().collect();
+        self.load(p)?;
+        for k in self.sections.keys() { if !before.contains(k) { self.exempt.insert(k.clone()); } }
+        Ok(())
+    }
     fn load(&mut self, p: &Path) -> Result<(), String> {
         let s = std::fs::read_to_string(p).map_err(|e| format!("cannot read spec {}: {}", p.display(), e))?;
         let mut cur: Option<String> = None;
@@ -420,16 +426,18 @@ fn extract_fn(cx: &mut Ctx, specs: &mut Specs, em: &mut Emitter, ex: &Extract) {
     if nloops > 0 || specs.get(&format!("nodecreases {}", name)).is_some() { em.raw(&format!("{}#[verifier::exec_allows_no_decreases_clause]", indent)); }
     if let Some(attrs) = specs.get(&format!("attrs {}", name)) { em.raw_block(&attrs, indent); }
     let vis = if in_trait_impl { "" } else { "pub " };
+    let is_stub = ex.kind == "stub";
+    if is_stub { em.raw(&format!("{}#[verifier::external_body] // @stub contract proved in another unit", indent)); }
     let fn_start = em.line();
     em.raw(&format!("{}{}fn {}{}({}){}{}", indent, vis, fn_ident, gtxt, params.join(", "), ret, wtxt));
-    if !in_trait_impl { match specs.get(&format!("fn {}", name)) { Some(s) => em.raw_block(&s, ""), None => {} } }
+    match specs.get(&format!("fn {}", name)) { Some(s) => em.raw_block(&s, ""), None => { if is_stub { cx.err(format!("lost anchor: stub `{}` has no contract section", name)); } } }
     let proof_entry = specs.get(&format!("proof {} entry", name));
     let mut loopspecs: BTreeMap<usize, (String, Option<String>, Option<String>)> = BTreeMap::new();
     for k in 0..nloops {
         let inv = specs.get(&format!("loop {} {}", name, k)).unwrap_or_default();
         loopspecs.insert(k, (inv, specs.get(&format!("proof {} loop {} start", name, k)), specs.get(&format!("proof {} loop {} end", name, k))));
     }
-    em.body(&block, if in_impl { 1 } else { 0 }, &ex.file, proof_entry.as_deref(), &loopspecs);
+    if is_stub { em.raw(&format!("{}{{ unimplemented!() }}", indent)); } else { em.body(&block, if in_impl { 1 } else { 0 }, &ex.file, proof_entry.as_deref(), &loopspecs); }
     if in_impl { em.raw("}"); }
     let fn_end = em.line();
     em.functions.push(emit::FnInfo { name: name.clone(), file: ex.file.clone(), src_line, gen_start: fn_start, gen_end: fn_end, kind: ex.kind.clone(), path: ex.path.clone(), loops: nloops, captured: captured.iter().map(|c| c.0.clone()).collect() });
@@ -566,6 +574,7 @@ fn main() {
     let mut cx = Ctx { unit, repo, probe, rules: BTreeMap::new(), errors: vec![], files: BTreeMap::new() };
     let mut specs = Specs::default();
     for s in cx.unit.specs.clone() { if let Err(e) = specs.load(&root.join(&s)) { eprintln!("hx: {}", e); std::process::exit(2); } }
+    for s in cx.unit.specrefs.clone() { if let Err(e) = specs.load_ref(&root.join(&s)) { eprintln!("hx: {}", e); std::process::exit(2); } }
     let mut em = Emitter::new();
     em.raw("// GENERATED by /verif/hx from the current working tree of /repo — do not edit.");
     em.raw("#![allow(unused_imports, unused_variables, unused_mut, dead_code, non_snake_case, unused_parens, unused_braces, unreachable_code, unused_assignments, non_camel_case_types, unused_must_use)]");
@@ -579,7 +588,7 @@ fn main() {
     em.comment("// @extracted-section");
     for ex in cx.unit.extracts.clone() {
         match ex.kind.as_str() {
-            "fn" | "asyncblock" => extract_fn(&mut cx, &mut specs, &mut em, &ex),
+            "fn" | "asyncblock" | "stub" => extract_fn(&mut cx, &mut specs, &mut em, &ex),
             "struct" | "alias" | "enum" => extract_struct(&mut cx, &mut specs, &mut em, &ex),
             "traitshape" => check_trait_shape(&mut cx, &ex),
             other => cx.err(format!("unit file: unknown extract kind {}", other)),
@@ -589,7 +598,7 @@ fn main() {
     em.raw("} // verus!");
     em.raw("fn main() {}");
     // unused spec sections are a lost anchor too: a contract that is attached to nothing proves nothing
-    for k in specs.sections.keys() { if !specs.used.contains(k) { cx.err(format!("lost anchor: spec section `@{}` matches no extracted item", k)); } }
+    for k in specs.sections.keys() { if !specs.used.contains(k) && !specs.exempt.contains(k) { cx.err(format!("lost anchor: spec section `@{}` matches no extracted item", k)); } }
     if let Some(o) = &out { std::fs::write(o, em.text()).expect("write out"); } else { print!("{}", em.text()); }
     if let Some(m) = &map { std::fs::write(m, em.map_json(&cx)).expect("write map"); }
     if !cx.errors.is_empty() { for e in &cx.errors { eprintln!("hx: {}", e); } std::process::exit(2); }
